@@ -374,11 +374,12 @@ theorem calloc_zeroed {c : Cfg} (hc : c.ok) {s s' : MM} {nm sz ins : Nat} {p : P
     have := hP.same
     simpa using this
 
-/-- **Defect (outside the theorem's hypothesis `nmemb*size < 2^64`)**: `rs_calloc` multiplies in
-`size_t` without an overflow check, so a request for `(2^63+8)·2 = 2^64+16` bytes *succeeds* and
-returns a block sized for 16 bytes. -/
-theorem calloc_wraparound_counterexample {c : Cfg} (hc : c.ok) {s : MM} (hI : Inv c s) (ins : Nat)
-    (hT : 4 ≤ c.T) (hT' : c.T < 64) :
+/-- **Defect of the pinned code (`callocChecked = false`; outside `calloc_zeroed`'s hypothesis
+`nmemb*size < 2^64`)**: `rs_calloc` multiplies in `size_t` without an overflow check, so a request for
+`(2^63+8)·2 = 2^64+16` bytes *succeeds* and returns a block sized for 16 bytes.  Fixed by
+`repo_patches/rs_calloc_overflow.diff` (`callocChecked = true`, see `calloc_overflow_fails`). -/
+theorem calloc_wraparound_counterexample {c : Cfg} (hc : c.ok) (hpin : c.callocChecked = false) {s : MM}
+    (hI : Inv c s) (ins : Nat) (hT : 4 ≤ c.T) (hT' : c.T < 64) :
     ∃ s' p, rsCalloc c s (2 ^ 63 + 8) 2 ins = (s', .ptr p) ∧
       (p.aid, p.off, blockExp c.B 16) ∈ s'.live c ∧ 2 ^ c.T < (2 ^ 63 + 8) * 2 := by
   have e : (2 ^ 63 + 8) * 2 % 2 ^ 64 = 16 := by decide
@@ -387,7 +388,7 @@ theorem calloc_wraparound_counterexample {c : Cfg} (hc : c.ok) {s : MM} (hI : In
   obtain ⟨s1, p, hm⟩ := malloc_succeeds hc hI (n := 16) ins (by omega) h16
   have hA := rsMalloc_ptr hc hI.inv0 hm
   refine ⟨s1.poke p.aid p.off (List.replicate 16 0), p, ?_, ?_, ?_⟩
-  · simp [rsCalloc, e, hm]
+  · simp [rsCalloc, e, hm, hpin]
   · have hnew : (p.aid, p.off, blockExp c.B 16) ∈ s1.live c := (hA.live _).2 (Or.inl rfl)
     obtain ⟨a, ha, he⟩ := mem_arena_of_live hnew
     simp at he
@@ -397,6 +398,87 @@ theorem calloc_wraparound_counterexample {c : Cfg} (hc : c.ok) {s : MM} (hI : In
     rw [hP.live]; exact hnew
   · have : 2 ^ c.T < 2 ^ 64 := Nat.pow_lt_pow_right (by omega) hT'
     omega
+
+/-- patched `rs_calloc`: a product that does not fit in `size_t` fails cleanly — `NULL`, `ENOMEM`,
+nothing changes -/
+theorem calloc_overflow_fails {c : Cfg} (hck : c.callocChecked = true) (s : MM) {nm sz : Nat} (ins : Nat)
+    (h : 2 ^ 64 ≤ nm * sz) : rsCalloc c s nm sz ins = (s, .enomem) := by
+  simp [rsCalloc, hck, h]
+
+/-- patched `rs_calloc`: `calloc_zeroed` without any hypothesis on the product -/
+theorem calloc_zeroed_checked {c : Cfg} (hc : c.ok) (hck : c.callocChecked = true) {s s' : MM}
+    {nm sz ins : Nat} {p : Ptr} (hI : Inv c s) (h : rsCalloc c s nm sz ins = (s', .ptr p)) :
+    (p.aid, p.off, blockExp c.B (nm * sz)) ∉ s.live c ∧
+    (∀ b, b ∈ s'.live c ↔ b = (p.aid, p.off, blockExp c.B (nm * sz)) ∨ b ∈ s.live c) ∧
+    nm * sz ≤ 2 ^ blockExp c.B (nm * sz) ∧ p.off + 2 ^ blockExp c.B (nm * sz) ≤ 2 ^ c.T ∧
+    2 ^ blockExp c.B (nm * sz) ∣ p.off ∧
+    (s'.bytes (p.aid, p.off, blockExp c.B (nm * sz))).take (nm * sz) = List.replicate (nm * sz) 0 := by
+  apply calloc_zeroed hc hI _ h
+  apply Nat.lt_of_not_le
+  intro hov
+  rw [calloc_overflow_fails hck s ins hov] at h
+  simp at h
+
+/-- every outcome of `rs_calloc` that is not a pointer leaves the state unchanged and is either a
+zero-size or an over-size request -/
+theorem calloc_fails_cleanly {c : Cfg} (hc : c.ok) {s s' : MM} {nm sz ins : Nat} {r : Ret} (hI : Inv c s)
+    (h : rsCalloc c s nm sz ins = (s', r)) (hr : ∀ p, r ≠ .ptr p) :
+    s' = s ∧ ((nm * sz % 2 ^ 64 = 0 ∧ r = .null) ∨ (2 ^ c.T < nm * sz % 2 ^ 64 ∧ r = .enomem) ∨
+      (c.callocChecked = true ∧ 2 ^ 64 ≤ nm * sz ∧ r = .enomem)) :=
+  rsCalloc_not_ptr hc hI.inv0 h hr
+
+/-- **The full calloc clause of C12** for the variant `checked` of `rs_calloc`: for every
+configuration of that variant, every reachable state and all `size_t` arguments, a successful call
+returns a fresh live block of some order `k` with `nmemb*size ≤ 2^k` (at least the requested size)
+whose first `nmemb*size` bytes are zero, the live set being the old one plus that block; and an
+unsuccessful call changes nothing and happens only for a zero-size or an over-size
+(`> 2^T`, or not representable) request. -/
+def CallocStatement (checked : Bool) : Prop :=
+  ∀ (c : Cfg), c.ok → c.callocChecked = checked → ∀ (s : MM), Inv c s →
+  ∀ (nm sz ins : Nat) (s' : MM) (r : Ret), nm < 2 ^ 64 → sz < 2 ^ 64 → rsCalloc c s nm sz ins = (s', r) →
+    (∀ p, r = .ptr p → ∃ k, (p.aid, p.off, k) ∉ s.live c ∧
+      (∀ b, b ∈ s'.live c ↔ b = (p.aid, p.off, k) ∨ b ∈ s.live c) ∧ nm * sz ≤ 2 ^ k ∧
+      (s'.bytes (p.aid, p.off, k)).take (nm * sz) = List.replicate (nm * sz) 0) ∧
+    ((∀ p, r ≠ .ptr p) → s' = s ∧ (nm * sz = 0 ∨ 2 ^ c.T < nm * sz ∨ 2 ^ 64 ≤ nm * sz))
+
+/-- the patched code satisfies the full clause -/
+theorem callocStatement_patched : CallocStatement true := by
+  intro c hc hck s hI nm sz ins s' r _ _ h
+  constructor
+  · rintro p rfl
+    obtain ⟨h1, h2, h3, _, _, h6⟩ := calloc_zeroed_checked hc hck hI h
+    exact ⟨_, h1, h2, h3, h6⟩
+  · intro hr
+    obtain ⟨h1, h2⟩ := calloc_fails_cleanly hc hI h hr
+    refine ⟨h1, ?_⟩
+    by_cases hov : 2 ^ 64 ≤ nm * sz
+    · exact Or.inr (Or.inr hov)
+    · have e : nm * sz % 2 ^ 64 = nm * sz := Nat.mod_eq_of_lt (by omega)
+      rw [e] at h2
+      rcases h2 with h2 | h2 | h2
+      · exact Or.inl h2.1
+      · exact Or.inr (Or.inl h2.1)
+      · exact absurd h2.2.1 hov
+
+/-- the real configuration with the pinned `rs_calloc` -/
+def cRealPinned : Cfg := ⟨16, 6, 2192, 16, fun _ _ => 0, false⟩
+
+/-- the pinned code violates it: `rs_calloc(2^63+8, 2)` succeeds with a block far smaller than
+`nmemb*size` -/
+theorem callocStatement_pinned_false : ¬ CallocStatement false := by
+  intro hS
+  have hc : cRealPinned.ok := ⟨by decide, by decide⟩
+  have hI : Inv cRealPinned (MM.init cRealPinned) := inv_init _
+  obtain ⟨s', p, h, _, _⟩ :=
+    calloc_wraparound_counterexample hc rfl hI 0 (by decide) (by decide)
+  obtain ⟨k, _, hlive, hle, _⟩ :=
+    (hS cRealPinned hc rfl _ hI (2 ^ 63 + 8) 2 0 s' (.ptr p) (by decide) (by decide) h).1 p rfl
+  have hI' : Inv cRealPinned s' :=
+    inv_step (op := .calloc (2 ^ 63 + 8) 2 0) (r := .ptr p) hc hI (by simp [step, h])
+  have hb := live_block_valid hI' ((hlive _).2 (Or.inl rfl))
+  have h1 : 2 ^ k ≤ 2 ^ cRealPinned.T := Nat.pow_le_pow_right (by decide) hb.2.1
+  have h2 : (2 : Nat) ^ cRealPinned.T < (2 ^ 63 + 8) * 2 := by decide
+  omega
 
 /-! ## (8) the unchecked assumption of `buddy_malloc` -/
 
@@ -419,10 +501,10 @@ theorem reachable_trees_wf {c : Cfg} (hc : c.ok) {s : MM} {ops : List Op}
 
 /-! ## non-vacuity -/
 
-/-- the real configuration -/
-def cReal : Cfg := ⟨16, 6, 2192, 16, fun _ _ => 0⟩
+/-- the real configuration (patched `rs_calloc`) -/
+def cReal : Cfg := ⟨16, 6, 2192, 16, fun _ _ => 0, true⟩
 /-- a tiny configuration for kernel evaluation: 8-byte arenas, 2-byte leaves -/
-def cTiny : Cfg := ⟨3, 1, 5, 16, fun i o => i + o⟩
+def cTiny : Cfg := ⟨3, 1, 5, 16, fun i o => i + o, false⟩
 
 theorem cReal_ok : cReal.ok := ⟨by decide, by decide⟩
 theorem cTiny_ok : cTiny.ok := ⟨by decide, by decide⟩
